@@ -111,7 +111,7 @@ META["C18"] = dict(
     design_ref="DESIGN.md section 5, C18",
     technique="Coq proof of an inductive invariant over a labelled transition model of the runner (callers, abstract-time environment, goroutine select) for every execution; refutation witness for the pinned Start/Stop; trace-admissibility correspondence: the real Runner's totally ordered event log is checked by the extracted checker, plus held-invocation script, goroutine-leak check and one-sided cadence bound",
     text="Theorems C18_once_per_tick, C18_stop_quiescent, C18_no_goroutine_left, C18_schedule_progress: in every execution the function is never invoked before Start and at most once per tick delivered by the active schedule's ticker; once Stop has returned no step starts or ends the function, ever; Stop returns only after the goroutine exited and after cancellation its exit is always enabled; the timer moves to the next schedule (last one stays) and Restart returns to the first. Refuted/C18_pinned.v proves the pinned code invokes the function after Stop returned.",
-    note="Trusted: Coq kernel; channel/select/timer semantics as modelled (timers never early, select may take any ready case); premise first StartDelay < 1h placeholder; the trace checker's inclusion of the model's traces is by construction, not proved; wall-clock accuracy is the runtime's (one-sided checks only); extraction + driver; harness.",
+    note="Trusted: Coq kernel; channel/select/timer semantics as modelled (timers never early, select may take any ready case); premise first StartDelay < 1h placeholder; the trace checker accepts every visible trace of the model (theorem C18_checker_accepts_model); wall-clock accuracy is the runtime's (one-sided checks only); extraction + driver; harness.",
 )
 
 META["C02"] = dict(
@@ -131,8 +131,8 @@ META["C03"] = dict(
 META["C04"] = dict(
     design_ref="DESIGN.md section 5, C04",
     technique="Coq proof that the number of workers in a body never exceeds the pool size in any reachable state (worker i owns handle i by construction); instance witnesses (computation) that all workers can be busy; oracle correspondence with an in-flight high-water mark, a live handle set and a rendezvous in real runs of the five rate/users triggers",
-    text="Theorem C04_bound: in every reachable state in_flight <= concurrency and the pool keeps exactly `concurrency` workers. C04_all_usable_instances exhibits schedules with all workers busy for pools of 1-4 workers (the general existence statement is observed on the real pools by rendezvous bodies that only return when `concurrency` of them overlap).",
-    note="Trusted: Coq kernel; handle distinctness is structural in the model and observed (pointer set) in the code; the 'all workers usable' direction is proved for instances and otherwise exploration-level; extraction + driver; harness.",
+    text="Theorem C04_bound: in every reachable state in_flight <= concurrency and the pool keeps exactly `concurrency` workers. C04_no_lost_wakeup: in every reachable state with pending requests, the pool running and the ticking goroutine not between its swap and its broadcast, no worker is parked on the condition variable (no lost wake-up; every pool size, every schedule). C04_all_usable_instances additionally exhibits schedules with all workers busy for pools of 1-4 workers (a general existence statement is observed on the real pools by rendezvous bodies that only return when `concurrency` of them overlap).",
+    note="Trusted: Coq kernel; handle distinctness is structural in the model and observed (pointer set) in the code; the 'all workers usable' direction is the no-lost-wake-up invariant plus C05_pool_progress; extraction + driver; harness.",
 )
 
 META["C09"] = dict(
